@@ -68,12 +68,23 @@ type Case struct {
 	Names   []PName `json:"names,omitempty"`
 	Depth   string  `json:"depth,omitempty"`
 	Lexical []int   `json:"lexical,omitempty"`
+	Alt     bool    `json:"alt_names,omitempty"` // principal /dav/ada/, home set /dav/ada/dav/
 }
 
-const (
+// the hierarchy below the mount prefix "/dav": two spellings - names that share no letter with the prefix, and names
+// made only of the prefix's own letters (a prefix removed as a character set eats exactly those; after C11-s12)
+var (
 	principal = "/dav/u/"
 	home      = "/dav/u/h/"
 )
+
+func setLayout(alt bool) {
+	if alt {
+		principal, home = "/dav/ada/", "/dav/ada/dav/"
+	} else {
+		principal, home = "/dav/u/", "/dav/u/h/"
+	}
+}
 
 func collPath(c Coll) string       { return home + c.Name + "/" }
 func objPath(c Coll, o Obj) string { return home + c.Name + "/" + o.Name }
@@ -297,6 +308,12 @@ func body(c Case, form string, names []PName) (string, string) {
 		root = vx.El(vdav.NSDAV, "propfind", vx.El(vdav.NSDAV, "propname"))
 	case "allprop":
 		root = vx.El(vdav.NSDAV, "propfind", vx.El(vdav.NSDAV, "allprop"))
+	case "allprop+include":
+		inc := vx.El(vdav.NSDAV, "include")
+		for _, n := range names {
+			inc.Add(vx.El(n.Space, n.Local))
+		}
+		root = vx.El(vdav.NSDAV, "propfind", vx.El(vdav.NSDAV, "allprop"), inc)
 	case "none":
 		root = vx.El(vdav.NSDAV, "propfind")
 		if len(c.Lexical) > 0 && c.Lexical[0]%2 == 1 {
@@ -393,6 +410,7 @@ func read(resp cfs.Resp, cls string) (map[string]map[vx.Name][]found, []string, 
 }
 
 func evaluate(c Case) (vev.Outcome, error) {
+	setLayout(c.Alt)
 	w := build(c)
 	scope, countOnly, known := w.scope(c.Target, c.Depth)
 	if !known {
@@ -503,15 +521,27 @@ func evaluate(c Case) (vev.Outcome, error) {
 		switch c.Form {
 		case "propname":
 			// same request: consistency only
-		case "allprop", "empty":
+		case "allprop", "empty", "allprop+include":
 			for n := range P {
 				occ := G[n]
 				if len(occ) != 1 || occ[0].code != 200 {
 					return dev(cls+"|missing-or-not-200", "%s of %q is listed by propname but %s returns it as %+v", n, path, c.Form, occ), nil
 				}
 			}
-			for n := range G {
+			included := map[vx.Name]bool{}
+			if c.Form == "allprop+include" {
+				for _, n := range c.Names {
+					included[vx.Name{Space: n.Space, Local: n.Local}] = true
+				}
+			}
+			for n, occ := range G {
 				if _, ok := P[n]; !ok {
+					if included[n] && n.Space != "" && len(occ) == 1 && occ[0].code == 404 {
+						continue // a name of the include list the resource lacks may be accounted for under 404
+					}
+					if included[n] && n.Space == "" {
+						continue // no-namespace names: known finding KF-C11-1 territory, not this form's business
+					}
 					return dev(cls+"|unlisted-name", "%s returns %s for %q which propname does not list", c.Form, n, path), nil
 				}
 			}
@@ -725,11 +755,13 @@ func TestPropfind(t *testing.T) {
 		case "caldav", "carddav":
 			c.Colls = genColls(rt)
 		}
+		c.Alt = rapid.IntRange(0, 2).Draw(rt, "altnames") == 0
+		setLayout(c.Alt)
 		c.Target = rapid.SampledFrom(targets(c)).Draw(rt, "target")
-		c.Form = rapid.SampledFrom([]string{"prop", "prop", "prop", "propname", "allprop", "empty", "none"}).Draw(rt, "form")
+		c.Form = rapid.SampledFrom([]string{"prop", "prop", "prop", "propname", "allprop", "allprop+include", "empty", "none"}).Draw(rt, "form")
 		c.Depth = rapid.SampledFrom([]string{"", "0", "1", "infinity"}).Draw(rt, "depth")
 		c.Lexical = rapid.SliceOfN(rapid.IntRange(0, 11), 24, 24).Draw(rt, "lexical")
-		if c.Form == "prop" {
+		if c.Form == "prop" || c.Form == "allprop+include" {
 			n := rapid.IntRange(0, 8).Draw(rt, "nnames")
 			for i := 0; i < n; i++ {
 				pn := rapid.SampledFrom(namePool).Draw(rt, "name")
